@@ -11,10 +11,11 @@ import (
 )
 
 func init() {
-	Explanations["C10"] = "Decides structural necessary conditions of 'a successful renter RPC is cryptographically bound' for every renter-side RPC function of package rhp: (R1) a frozen table of 41 guards (request validation, byte-count check, Merkle proof verifiers with their locally chosen arguments untainted by the host's response, count checks, per-deposit and total cost bounds, host funding, transaction-id equality, host signature checks over hashes of locally built revisions) — for each guard there is a branch whose failing side cannot reach any success return in scope and whose passing side every such success return must cross; (R2) the revision placed in a result returned with a nil error is the locally constructed value: no data derived from a host response flows into it except a signature that is the argument of a dominating VerifyHash. RPCSettings, RPCAccountBalance and RPCLatestRevision return unverifiable host claims by construction and are out of scope. NOT decided: soundness of core's verifiers and constructors, byte equality of streamed data with the committed sector beyond the proof check."
+	Explanations["C10"] = "Decides structural necessary conditions of 'a successful renter RPC is cryptographically bound' for every renter-side RPC function of package rhp: (R1) a frozen table of 41 guards (request validation, byte-count check, Merkle proof verifiers with their locally chosen arguments untainted by the host's response, count checks, per-deposit and total cost bounds, host funding, transaction-id equality, host signature checks over hashes of locally built revisions) — for each guard there is a branch whose failing side cannot reach any success return in scope and whose passing side every such success return must cross; (R2) the revision placed in a result returned with a nil error is the locally constructed value: no data derived from a host response flows into it except a signature that is the argument of a dominating VerifyHash. (R3) slices.Compact, which the renter uses to de-duplicate the indices of a free-sectors request, is applied only to a list sorted just before on every path. RPCSettings, RPCAccountBalance and RPCLatestRevision return unverifiable host claims by construction and are out of scope. NOT decided: soundness of core's verifiers and constructors, byte equality of streamed data with the committed sector beyond the proof check."
 
 	register(&Rule{ID: "C10.R1", Prop: "C10", Floor: 41, Doc: "obligation table: every success return is dominated by the passing edge of each required verification guard", Run: c10r1})
 	register(&Rule{ID: "C10.R2", Prop: "C10", Floor: 10, Doc: "response taint: returned revisions are locally built; only verified signatures come from the host", Run: c10r2})
+	register(&Rule{ID: "C10.R3", Prop: "C10", Floor: 1, Doc: "request normalisation: de-duplication (slices.Compact) only of a list sorted just before", Run: c10r3})
 }
 
 // renterEnv collects, for one renter RPC function, the response variables and
@@ -675,4 +676,66 @@ func hashOfLocal(env *renterEnv, e ast.Expr) bool {
 		return false
 	}
 	return env.revVars[f.ObjOf(rootOfLvalue(hc.Args[0]))]
+}
+
+// c10r3: de-duplication by slices.Compact only removes *adjacent* repeats, so
+// it de-duplicates only a sorted list. The renter normalises the indices of a
+// free-sectors request (sort, then compact) before building the request and
+// the proof actions from them; compacting an unsorted list lets a repeated
+// index through, which frees (and charges for) a sector nobody asked to free.
+func c10r3(c *Ctx) {
+	isSort := func(call ir.Call) bool {
+		if call.Fn == nil || call.Fn.Pkg() == nil {
+			return false
+		}
+		switch call.Fn.Pkg().Path() + "." + call.Fn.Name() {
+		case "slices.Sort", "slices.SortFunc", "slices.SortStableFunc", "sort.Slice", "sort.SliceStable", "sort.Sort", "sort.Stable":
+			return true
+		}
+		return false
+	}
+	for _, f := range c.P.Funcs {
+		if f.Pkg.PkgPath != ir.PkgPath("rhp") {
+			continue
+		}
+		g := f.Graph()
+		for _, call := range f.Calls(false) {
+			if call.Fn == nil || call.Fn.Pkg() == nil || call.Fn.Pkg().Path() != "slices" || (call.Fn.Name() != "Compact" && call.Fn.Name() != "CompactFunc") {
+				continue
+			}
+			c.VisitGraph(f)
+			ob := c.Ob(f, "compact-only-after-sort", call.Pos())
+			v := f.ObjOf(call.Expr.Args[0])
+			cn := g.NodeContaining(call.Pos())
+			if v == nil || cn == nil {
+				ob.Bad(nil, "slices.Compact at %s is applied to a value that was not sorted first (it is not a variable): repeated indices that are not adjacent survive", c.P.Pos(call.Pos()))
+				continue
+			}
+			good := false
+			for _, sc := range f.Calls(false) {
+				if !isSort(sc) || len(sc.Expr.Args) == 0 || f.ObjOf(sc.Expr.Args[0]) != v {
+					continue
+				}
+				sn := g.NodeContaining(sc.Pos())
+				if sn == nil || sn == cn || !g.DominatedByNode(cn, sn) {
+					continue
+				}
+				rewritten := false
+				for m := range pathNodesBetween(g, sn, cn) {
+					if m.AST == nil {
+						continue
+					}
+					for _, w := range f.WritesIn(m.AST, false) {
+						if f.ObjOf(rootOfLvalue(w.LHS)) == v {
+							rewritten = true
+						}
+					}
+				}
+				if !rewritten {
+					good = true
+				}
+			}
+			ob.Check(good, nil, "slices.Compact at %s is not preceded on every path by a sort of the same list (with no write to it in between): repeated indices that are not adjacent survive de-duplication, so a sector nobody asked to free is freed and charged for", c.P.Pos(call.Pos()))
+		}
+	}
 }
